@@ -22,16 +22,29 @@ func (errInvalidUTF8) Unwrap() error     { return errors.Error }
 
 // initOneofFieldCoders initializes the fast-path functions for the fields in a oneof.
 //
-// For size, marshal, and isInit operations, functions are set only on the first field
+// For size and marshal operations, functions are set only on the first field
 // in the oneof. The functions are called when the oneof is non-nil, and will dispatch
 // to the appropriate field-specific function as necessary.
 //
 // The unmarshal function is set on each field individually as usual.
+// The isInit function is set on each field that needs it (the unmarshaler
+// consults it to decide whether the field's initialization status matters)
+// and only checks the oneof when that field is the populated one.
 func (mi *MessageInfo) initOneofFieldCoders(od protoreflect.OneofDescriptor, si structInfo) {
 	fs := si.oneofsByName[od.Name()]
 	ft := fs.Type
 	oneofFields := make(map[reflect.Type]*coderFieldInfo)
-	needIsInit := false
+	getInfo := func(p pointer) (pointer, *coderFieldInfo) {
+		v := p.AsValueOf(ft).Elem()
+		if v.IsNil() {
+			return pointer{}, nil
+		}
+		v = v.Elem() // interface -> *struct
+		if v.IsNil() {
+			return pointer{}, nil
+		}
+		return pointerOfValue(v).Apply(zeroOffset), oneofFields[v.Elem().Type()]
+	}
 	fields := od.Fields()
 	for i, lim := 0, fields.Len(); i < lim; i++ {
 		fd := od.Fields().Get(i)
@@ -48,7 +61,13 @@ func (mi *MessageInfo) initOneofFieldCoders(od protoreflect.OneofDescriptor, si 
 		cf.mi, cf.funcs = fieldCoder(fd, cf.ft)
 		oneofFields[ot] = &cf
 		if cf.funcs.isInit != nil {
-			needIsInit = true
+			mi.coderFields[num].funcs.isInit = func(p pointer, _ *coderFieldInfo) error {
+				p, info := getInfo(p)
+				if info != &cf {
+					return nil
+				}
+				return info.funcs.isInit(p, info)
+			}
 		}
 		mi.coderFields[num].funcs.unmarshal = func(b []byte, p pointer, wtyp protowire.Type, f *coderFieldInfo, opts unmarshalOptions) (unmarshalOutput, error) {
 			var vw reflect.Value         // pointer to wrapper type
@@ -68,17 +87,6 @@ func (mi *MessageInfo) initOneofFieldCoders(od protoreflect.OneofDescriptor, si 
 			vi.Set(vw)
 			return out, nil
 		}
-	}
-	getInfo := func(p pointer) (pointer, *coderFieldInfo) {
-		v := p.AsValueOf(ft).Elem()
-		if v.IsNil() {
-			return pointer{}, nil
-		}
-		v = v.Elem() // interface -> *struct
-		if v.IsNil() {
-			return pointer{}, nil
-		}
-		return pointerOfValue(v).Apply(zeroOffset), oneofFields[v.Elem().Type()]
 	}
 	first := mi.coderFields[od.Fields().Get(0).Number()]
 	first.funcs.size = func(p pointer, _ *coderFieldInfo, opts marshalOptions) int {
@@ -106,15 +114,6 @@ func (mi *MessageInfo) initOneofFieldCoders(od protoreflect.OneofDescriptor, si 
 			dstp = pointerOfValue(dst.AsValueOf(ft).Elem().Elem()).Apply(zeroOffset)
 		}
 		srcinfo.funcs.merge(dstp, srcp, srcinfo, opts)
-	}
-	if needIsInit {
-		first.funcs.isInit = func(p pointer, _ *coderFieldInfo) error {
-			p, info := getInfo(p)
-			if info == nil || info.funcs.isInit == nil {
-				return nil
-			}
-			return info.funcs.isInit(p, info)
-		}
 	}
 }
 
